@@ -1631,6 +1631,9 @@ class IndexHierarchy(IndexBase):
                 for target in levels.targets: #type: ignore
                     labels.extend(target.index)
                     if target.targets is not None:
+                        for t in target.targets:
+                            # offsets were relative to the dropped parent; make them relative to the new shared parent
+                            t.offset += target.offset
                         targets.extend(target.targets)
                 index = levels.index.__class__(labels)
                 if not targets:
